@@ -105,7 +105,9 @@ class _Instr(trio.abc.Instrument):
 
 
 class RWorld:
-    def __init__(self, chooser, router, *, faults=0, cancel_steps=0, fault_kinds=None, horizon=3000):
+    def __init__(self, chooser, router, *, faults=0, cancel_steps=0, fault_kinds=None, horizon=3000, timers=False):
+        self.timers = timers        # the clock may be advanced to the next trio deadline whenever everybody is blocked
+        self.gates = {}             # name -> [trio.Event, armed?]: external "release" events (held responses)
         _install_shield_counter()
         SHIELD_DEPTH.clear()
         self.chooser = chooser
@@ -145,6 +147,15 @@ class RWorld:
         if victim:
             self.victim = c
         return c
+
+    def make_release(self, name):
+        """An external event the controller may deliver once `arm(name)` was called (a held response being let go)."""
+        ev = trio.Event()
+        self.gates[name] = [ev, False]
+        return ev
+
+    def arm(self, name):
+        self.gates[name][1] = True
 
     def where(self, task):
         out = []
@@ -236,6 +247,14 @@ class RWorld:
             for op in sorted(self.net.pending, key=lambda o: str(o.task)):
                 for lab, ans, kind in self._answers(op):
                     menu.append((f"io:{op.kind}@{op.task}:{lab}", op, ans))
+            for name in sorted(self.gates):
+                ev, armed = self.gates[name]
+                if armed and not ev.is_set():
+                    menu.append((f"release:{name}", "release", name))
+            if self.timers:
+                secs = trio.lowlevel.current_statistics().seconds_to_next_deadline
+                if secs != float("inf") and secs >= 0:
+                    menu.append((f"timer:+{round(secs, 6)}", "timer", secs))
             v = self.victim
             if v is not None and self.cancel_steps and self.cancel_at == 0 and not v["cancelled"] and not v["done"] and v["scope"] is not None and not self.auto and menu:
                 # cancellation arriving from outside while everybody is blocked; together with the completion delivered
@@ -254,6 +273,12 @@ class RWorld:
                 task = next((t for t in self._tasks() if t.name == v["name"]), None)
                 v["cancel_info"] = {"where": self.where(task) if task is not None else "(unknown)", "httpcore_shield": SHIELD_DEPTH.get(v["name"], 0) > 0, "step": -1}
                 self.late_cancel = True
+                continue
+            if menu[k][1] == "release":
+                self.gates[menu[k][2]][0].set()
+                continue
+            if menu[k][1] == "timer":
+                self.clock.jump(menu[k][2])
                 continue
             self._deliver(menu[k][1], menu[k][2])
             if getattr(self, "late_cancel", False):
